@@ -119,3 +119,48 @@ pub proof fn lemma_filtered_partition(p: Seq<HashSet<State>>, r: Seq<&HashSet<St
     assert(union_upto(r, r.len() as int) =~= nodes);
     assert forall|j: int| 0 <= j < r.len() implies (#[trigger] r[j])@.len() > 0 by { assert(*r[j] == p[idx[j]]); }
 }
+// ---- accepting and non-accepting states are never put into one block (half of "the quotient accepts the same language") ----
+pub open spec fn is_accepting(s: State, finals: Set<usize>) -> bool { finals.contains(s.ix as usize) }
+pub open spec fn pure_block(b: Set<State>, finals: Set<usize>) -> bool { forall|a: State, c: State| #[trigger] b.contains(a) && #[trigger] b.contains(c) ==> is_accepting(a, finals) == is_accepting(c, finals) }
+pub open spec fn pure(p: Seq<HashSet<State>>, finals: Set<usize>) -> bool { forall|k: int| 0 <= k < p.len() ==> pure_block((#[trigger] p[k])@, finals) }
+pub open spec fn pure_refs(p: Seq<&HashSet<State>>, finals: Set<usize>) -> bool { forall|k: int| 0 <= k < p.len() ==> pure_block((#[trigger] p[k])@, finals) }
+pub proof fn lemma_subset_of_pure_is_pure(a: Set<State>, b: Set<State>, finals: Set<usize>)
+    requires a.subset_of(b), pure_block(b, finals)
+    ensures pure_block(a, finals)
+{
+    assert forall|x: State, y: State| #[trigger] a.contains(x) && #[trigger] a.contains(y) implies is_accepting(x, finals) == is_accepting(y, finals) by { assert(b.contains(x) && b.contains(y)); }
+}
+// a split only refines: both halves are subsets of the block they come from
+pub proof fn lemma_split_keeps_pure(p0: Seq<HashSet<State>>, p1: Seq<HashSet<State>>, k: int, x: Set<State>, finals: Set<usize>)
+    requires pure(p0, finals), 0 <= k < p0.len(), p1.len() == p0.len() + 1,
+        forall|j: int| 0 <= j < k ==> p1[j] == p0[j],
+        (p1[k]@ == x.intersect(p0[k]@) && p1[k + 1]@ == p0[k]@.difference(x)) || (p1[k + 1]@ == x.intersect(p0[k]@) && p1[k]@ == p0[k]@.difference(x)),
+        forall|j: int| k + 1 < j < p1.len() ==> p1[j] == p0[j - 1],
+    ensures pure(p1, finals)
+{
+    assert forall|j: int| 0 <= j < p1.len() implies pure_block((#[trigger] p1[j])@, finals) by {
+        let src = if j <= k { j } else { j - 1 };
+        assert(pure_block(p0[src]@, finals));
+        if j == k || j == k + 1 { assert(p1[j]@.subset_of(p0[k]@)); lemma_subset_of_pure_is_pure(p1[j]@, p0[k]@, finals); }
+        else if j < k { assert(p1[j] == p0[j]); } else { assert(p1[j] == p0[j - 1]); }
+    }
+}
+pub proof fn lemma_filtered_pure(p: Seq<HashSet<State>>, r: Seq<&HashSet<State>>, finals: Set<usize>)
+    requires pure(p, finals), exists|idx: Seq<int>| #[trigger] subseq_of(idx, r, p)
+    ensures pure_refs(r, finals)
+{
+    let idx = choose|idx: Seq<int>| #[trigger] subseq_of(idx, r, p);
+    assert forall|k: int| 0 <= k < r.len() implies pure_block((#[trigger] r[k])@, finals) by { assert(*r[k] == p[idx[k]]); assert(pure_block(p[idx[k]]@, finals)); }
+}
+// the initial partition: one block holds exactly the states the closure of get_initial_partition answers `true` for
+// `negated`: whether the closure asks for the NON-accepting states first (read off the closure text; either order separates the two kinds)
+pub open spec fn first_block_test(s: State, finals: Set<usize>, negated: bool) -> bool { if negated { !finals.contains(s.ix as usize) } else { finals.contains(s.ix as usize) } }
+pub proof fn lemma_initial_partition_is_pure(p: Seq<HashSet<State>>, finals: Set<usize>, negated: bool)
+    requires p.len() == 2, forall|s: State| #[trigger] p[0]@.contains(s) ==> first_block_test(s, finals, negated), forall|s: State| #[trigger] p[1]@.contains(s) ==> !first_block_test(s, finals, negated)
+    ensures pure(p, finals)
+{
+    assert forall|k: int| 0 <= k < p.len() implies pure_block((#[trigger] p[k])@, finals) by {
+        if k == 0 { assert forall|a: State, c: State| #[trigger] p[0]@.contains(a) && #[trigger] p[0]@.contains(c) implies is_accepting(a, finals) == is_accepting(c, finals) by { } }
+        else { assert forall|a: State, c: State| #[trigger] p[1]@.contains(a) && #[trigger] p[1]@.contains(c) implies is_accepting(a, finals) == is_accepting(c, finals) by { } }
+    }
+}
